@@ -1,0 +1,9 @@
+//go:build !verif
+
+package protocol
+
+// Verification hooks are compiled out without the `verif` build tag.
+
+const verifEnabled = false
+
+func verifTrace(_ *Protocol, _ string, _, _, _ uint64, _ []byte) {}
